@@ -258,6 +258,21 @@ def run(quiet=False, repo=None):
             got = type(e).__name__
         if got != exp:
             fail('b64decode(%r): %r != %r' % (t, got, exp))
+    import socket
+    for t in ['1.2.3.4', '0.0.0.0', '255.255.255.255', '256.1.1.1', '01.2.3.4',
+              '1.2.3', '1.2.3.4.5', '1..2.3', '', '1.2.3.4 ', 'a.b.c.d',
+              '1.2.3.04', '1.2.3.0', '0001.2.3.4', '1.2.3.4\x00', '.1.2.3',
+              '1.2.3.', '999.1.1.1', '1.2.3.4\n', '+1.2.3.4']:
+        try:
+            exp = socket.inet_pton(socket.AF_INET, t)
+        except Exception as e:
+            exp = type(e).__name__
+        try:
+            got = rt._inet_pton_model(socket.AF_INET, ls(t))
+        except Exception as e:
+            got = type(e).__name__
+        if got != exp:
+            fail('inet_pton(%r): %r != %r' % (t, got, exp))
     if rt._str_format('a{0}b{1!r}c{x}', ls('Q'), 5, x='z') != 'aQb5cz':
         fail('str.format model')
     if rt._percent_format(b'a%sb%%', (lb(b'Q'),)) != b'aQb%':
